@@ -538,6 +538,19 @@ impl LocalKeyId {
     }
 }
 
+impl Drop for LocalValue {
+    fn drop(&mut self) {
+        // When the model is failing, the `Execution` that owns the thread
+        // locals is dropped outside of any modeled thread. The value may own
+        // loom objects (e.g. an `Arc`) whose destructors need the execution
+        // state; they would panic again and abort. Leak the value, like the
+        // stacks of the suspended threads.
+        if !crate::rt::Scheduler::is_in_model() {
+            std::mem::forget(self.0.take());
+        }
+    }
+}
+
 impl LocalValue {
     fn new<T: 'static>(value: T) -> Self {
         Self(Some(Box::new(value)))
